@@ -247,6 +247,7 @@ class BodyScanner(object):
                     self.methods[fn.name] = fn
         self.ops = self.deferred = None
         self.lazy_used = set()
+        self.in_primitive = False
         self.stack = []
 
     # -- entry points -----------------------------------------------------------------------------------
@@ -270,6 +271,28 @@ class BodyScanner(object):
         except (Unclassified, NotImplementedError, RecursionError) as e:
             self.ops.append(("unknown", "%s: %s" % (name, e)))
         return self.ops, self.deferred
+
+    def scan_primitive(self):
+        """the body of `_send_scp` itself: which connection, and the destination handed to it"""
+        fn = self.methods["_send_scp"]
+        self.ops, self.deferred, self.stack = [], [], ["_send_scp"]
+        self.cur_kwonly, self.kwarg_name = [], None
+        env = {}
+        a = fn.args
+        for x in list(a.posonlyargs) + list(a.args):
+            if x.arg != "self":
+                env[x.arg] = ("ref", x.arg)
+        for x in (a.vararg, a.kwarg):
+            if x is not None:
+                env[x.arg] = DYN
+        self.in_primitive = True
+        try:
+            self.block(fn.body, env)
+        except (Unclassified, NotImplementedError, RecursionError) as e:
+            self.ops.append(("unknown", "_send_scp: %s" % e))
+        finally:
+            self.in_primitive = False
+        return self.ops
 
     def scan_property(self, name):
         self.ops, self.deferred, self.stack = [], [], [name]
@@ -302,6 +325,15 @@ class BodyScanner(object):
             else:
                 out[k] = DYN
         return out
+
+    @staticmethod
+    def isinstance_int(t, env):
+        """the parameter `n` if the test is `isinstance(n, int)` and `n` still holds the parameter"""
+        if isinstance(t, ast.Call) and isinstance(t.func, ast.Name) and t.func.id == "isinstance" and len(t.args) == 2 \
+                and isinstance(t.args[0], ast.Name) and env.get(t.args[0].id) == ("ref", t.args[0].id) \
+                and isinstance(t.args[1], ast.Name) and t.args[1].id == "int" and not t.keywords:
+            return t.args[0].id
+        return None
 
     @staticmethod
     def join_isinstance(n, a, b):
@@ -347,15 +379,17 @@ class BodyScanner(object):
                 self.assign(t, DYN, env)
         elif isinstance(st, ast.If):
             self.ev(st.test, env)
-            test = None
-            t = st.test
-            if isinstance(t, ast.Call) and isinstance(t.func, ast.Name) and t.func.id == "isinstance" and len(t.args) == 2 \
-                    and isinstance(t.args[0], ast.Name) and env.get(t.args[0].id) == ("ref", t.args[0].id) \
-                    and isinstance(t.args[1], ast.Name) and t.args[1].id == "int":
-                test = t.args[0].id
+            test = self.isinstance_int(st.test, env)
             e1, e2 = dict(env), dict(env)
             d1 = self.block(st.body, e1)
             d2 = self.block(st.orelse, e2)
+            t = st.test
+            if isinstance(t, ast.Compare) and isinstance(t.left, ast.Name) and len(t.ops) == 1 and isinstance(t.ops[0], ast.Is) \
+                    and isinstance(t.comparators[0], ast.Constant) and t.comparators[0].value is None and not d1 and not d2:
+                n = t.left.id
+                a, b = e1.get(n, DYN), e2.get(n, DYN)
+                if a[0] == "connget" and b[0] == "connget" and b == env.get(n):
+                    e1[n] = e2[n] = ("connget", b[1] + a[1])      # found under the first key, else looked up under the next
             j = self.join([None if d1 else e1, None if d2 else e2], test)
             if j is None:
                 return True
@@ -505,7 +539,10 @@ class BodyScanner(object):
         if isinstance(node, ast.IfExp):
             self.ev(node.test, env)
             a, b = self.ev(node.body, env), self.ev(node.orelse, env)
-            return a if a == b else DYN
+            if a == b:
+                return a
+            n = self.isinstance_int(node.test, env)
+            return self.join_isinstance(n, a, b) if n is not None else DYN
         if isinstance(node, (ast.GeneratorExp, ast.ListComp, ast.SetComp, ast.DictComp)):
             return self.comprehension(node, env)
         if isinstance(node, ast.Lambda):
@@ -617,12 +654,25 @@ class BodyScanner(object):
         # ---- <connection>.read / write / send_scp
         if isinstance(f, ast.Attribute) and f.attr in ("read", "write", "send_scp", "send_scp_burst"):
             recv = self.ev(f.value, env)
+            if recv[0] == "connget":
+                # BMPController._send_scp: the connection looked up under a chain of keys
+                avs = [self.ev(a, env) for a in node.args]
+                if f.attr == "send_scp" and self.in_primitive and len(avs) >= 4 \
+                        and not any(isinstance(a, ast.Starred) for a in node.args[:4]):
+                    self.ops.append(("prim", recv[1], [self.ex(v) for v in avs[1:4]]))
+                else:
+                    self.ops.append(("unknown", "connection.%s not understood" % f.attr))
+                return DYN
             if recv[0] == "conn":
                 avs = [self.ev(a, env) for a in node.args]
                 for k in node.keywords:
                     self.ev(k.value, env)
                 starred = any(isinstance(a, ast.Starred) for a in node.args[:5])
-                if f.attr in ("read", "write") and len(avs) >= 5 and not starred and not self.is_bmp:
+                if f.attr == "send_scp" and self.in_primitive and len(avs) >= 4 \
+                        and not any(isinstance(a, ast.Starred) for a in node.args[:4]) \
+                        and (avs[1], avs[2]) == (recv[1], recv[2]):
+                    self.ops.append(("scp", self.ex(avs[1]), self.ex(avs[2]), self.ex(avs[3]), None))
+                elif f.attr in ("read", "write") and len(avs) >= 5 and not starred and not self.is_bmp:
                     x, y, p = avs[2], avs[3], avs[4]
                     if (x, y) == (recv[1], recv[2]):
                         self.ops.append(("mem", self.ex(x), self.ex(y), self.ex(p)))
@@ -637,6 +687,13 @@ class BodyScanner(object):
                 self.ops.append(("unknown", "%s on a connection object" % f.attr))
                 return DYN
             self.args_only(node, env)
+            return DYN
+        # ---- self.connections.get((a, b, c), None)
+        if isinstance(f, ast.Attribute) and f.attr == "get" and isinstance(f.value, ast.Attribute) \
+                and _is_self(f.value.value) and f.value.attr == "connections":
+            avs = [self.ev(a, env) for a in node.args]
+            if avs and avs[0][0] == "tuple" and (len(avs) == 1 or avs[1] == ("lit", None)) and not node.keywords:
+                return ("connget", [[self.ex(v) for v in avs[0][1]]])
             return DYN
         # ---- kwargs.pop('name') / kwargs.get('name')
         if isinstance(f, ast.Attribute) and f.attr in ("pop", "get") and isinstance(f.value, ast.Name) \
@@ -844,6 +901,9 @@ def read_enums(repo):
     return out
 
 
+PRIMS = {}
+
+
 def read_bodies(repo):
     """{(cls, name): {"ops": [...], "deferred": [...]}} for every decorated method, plus {"lazy": {cls: ops}}"""
     sigs = read_signatures(repo)
@@ -862,6 +922,7 @@ def read_bodies(repo):
             ops, deferred = sc.scan(g["name"])
             out[(cname, g["name"])] = {"ops": ops, "deferred": deferred}
         lazy[cname] = {p: sc.scan_property(p) for p in sorted(sc.lazy_used)}
+        PRIMS[cname] = sc.scan_primitive()
     return out, lazy
 
 
@@ -917,8 +978,18 @@ def gen_bodies(repo):
     s += "def genLazy : List (String × String × List Op) :=\n  %s\n\n" % lean_list(
         [(c, p, ops) for c, d in lazy.items() for p, ops in d.items()],
         lambda t: "(%s, %s, [%s])" % (lean_str(t[0]), lean_str(t[1]), ", ".join(lean_op(o) for o in t[2])))
+    # the primitives themselves
+    mc, bmp = PRIMS["MachineController"], PRIMS["BMPController"]
+    s += ("/-- `MachineController._send_scp(x, y, p, ..)`: what it hands to the connection of `_get_connection(x, y)` -/\n"
+          "def genMcSend : List Op :=\n  [%s]\n\n" % ", ".join(lean_op(o) for o in mc))
+    ok = len(bmp) == 1 and bmp[0][0] == "prim"
+    s += ("/-- `BMPController._send_scp(cabinet, frame, board, ..)`: the keys it looks a connection up under, in order -/\n"
+          "def genBmpKeys : List (List Ex) :=\n  %s\n\n" % lean_list(bmp[0][1] if ok else [], lambda k: lean_list(k, lean_ex)))
+    s += ("/-- ... and the (x, y, p) it hands to that connection -/\n"
+          "def genBmpDest : List Ex :=\n  %s\n\n" % lean_list(bmp[0][2] if ok else [], lean_ex))
+    s += "def genBmpSendOk : Bool := %s\n\n" % ("true" if ok else "false")
     s += "end Rig.Gen.C18Bodies\n"
-    return s, len(bodies)
+    return s, len(bodies) + 2
 
 
 GENERATORS = {"Signatures": gen_signatures, "C18Consts": gen_consts, "C18Bodies": gen_bodies}
